@@ -210,6 +210,10 @@ def run_output_sxr(key):
     for rd, pre in ((True, ''), ('out_', 'out_')):
         with np.errstate(all='ignore'):
             d = sx.output_sxr(img, noise, average_sources=False, return_dict=rd)
+            # a later call (other signals, same dict form) leaves the result returned before as it was
+            later = sx.output_sxr(img[:, ::-1] * 3.0, noise[::-1] * 0.5, average_sources=True, return_dict=rd)
+        if later is d:
+            return viol(f'output_sxr(return_dict={rd!r}) returns the same dict object in successive calls')
         if not isinstance(d, dict) or sorted(d) != sorted(pre + k for k in ('sdr', 'sir', 'snr')):
             return viol(f'output_sxr(return_dict={rd!r}) returned {type(d).__name__} '
                         f'{sorted(d) if isinstance(d, dict) else ""}, expected a dict with keys prefixed {pre!r}')
@@ -285,8 +289,13 @@ def run_input_sxr(key):
     for rd, pre in ((True, ''), ('input_', 'input_')):
         with np.errstate(all='ignore'):
             d = sx.input_sxr(img, noise, return_dict=rd)
+            later = sx.input_sxr(img * 2.0, noise * 7.0, average_sources=False, return_dict=rd)
+            plain = sx.input_sxr(img, noise)
         if not isinstance(d, dict) or sorted(d) != sorted(pre + k for k in ('sdr', 'sir', 'snr')):
             return viol(f'input_sxr(return_dict={rd!r}) keys {sorted(d) if isinstance(d, dict) else type(d)}')
+        if later is d or not all(same_value(d[pre + nm_], getattr(plain, nm_)) for nm_ in ('sdr', 'sir', 'snr')):
+            return viol(f'input_sxr(return_dict={rd!r}): the returned dict changed when input_sxr was called again '
+                        f'with other signals')
     return ok(outcome=str(outs), evals=4 + 4 * len(SCALES))
 
 
@@ -306,6 +315,20 @@ def run_snr(key):
     got = sx.get_snr(X, N, axis=axis)
     if not same_value(got, np.full(np.shape(got), target), 1e-9):
         return viol(f'get_snr(set_snr(..., {target})) = {np.asarray(got).tolist()}')
+    # a sequence of requests on the same noise buffer: every request is met, however close it is to the level
+    # the noise already has (steps of 1e-3 ... 1e-7 dB, and the same level again)
+    for step in (1e-3, -1e-4, 1e-5, -3e-7, 0.0):
+        want = target + step
+        try:
+            sx.set_snr(X, N, want, axis=axis, inplace=True)
+            X6, N6 = sx.set_snr(X, N, want + step, axis=axis, inplace=False)
+        except Exception as e:  # noqa
+            return viol(f'set_snr raised {e!r} in a sequence of requests')
+        for what, got, w_ in (('inplace', sx.get_snr(X, N, axis=axis), want),
+                              ('copy', sx.get_snr(X6, N6, axis=axis), want + step)):
+            if not same_value(got, np.full(np.shape(got), w_), 1e-10):
+                return viol(f'set_snr ({what}) to {w_!r} dB on noise that already was within {abs(step):.0e} dB of it: '
+                            f'get_snr = {np.asarray(got).ravel()[:3].tolist()}')
     N2 = N0.copy()
     N2.setflags(write=False)
     try:
